@@ -25,7 +25,8 @@ REQUIRED_COUNTERS = {"towers": {"quick": 3000, "thorough": 60000},
                      "nested_paths": {"quick": 1000, "thorough": 20000},
                      "customize_combinations": {"quick": 80, "thorough": 80},
                      "identity_pairs": {"quick": 200, "thorough": 2000},
-                     "identitydict_ops": {"quick": 20000, "thorough": 400000}}
+                     "identitydict_ops": {"quick": 20000, "thorough": 400000},
+                     "non_function_wrappers": {"quick": 1000, "thorough": 20000}}
 SHARD_TIMEOUT = {"quick": 400, "thorough": 5400}
 INTERPS = ["3.12", "3.11", "3.10", "3.9"]
 
@@ -72,7 +73,7 @@ def worker(spec):
         desc = ["base"]
         for d in range(rng.randint(0, 6)):
             k = rng.choice(["partial", "wraps", "method", "classmethod", "staticmethod", "boundmethod", "wraps2",
-                            "named_partial"])
+                            "named_partial", "lru_cache", "class_wrapper"])
             inner = callable_thing
             if k == "partial":
                 thing = functools.partial(inner, *([1] if rng.random() < 0.3 else []))
@@ -99,6 +100,30 @@ def worker(spec):
                     pass
                 thing = mkw(inner)
                 callable_thing = thing
+            elif k == "lru_cache":
+                # a functools.wraps-style wrapper that is not a Python function (a C object with __wrapped__)
+                try:
+                    thing = functools.lru_cache(maxsize=None)(inner)
+                except TypeError:
+                    continue
+                callable_thing = thing
+                res.count("non_function_wrappers")
+            elif k == "class_wrapper":
+                # class-based decorator that calls functools.update_wrapper(self, fn)
+                class Deco(object):
+                    def __init__(self, fn):
+                        self.fn = fn
+                        try:
+                            functools.update_wrapper(self, fn)
+                        except AttributeError:
+                            pass
+                        self.__wrapped__ = fn
+
+                    def __call__(self, *a, **kw):
+                        return self.fn(*a, **kw)
+                thing = Deco(inner)
+                callable_thing = thing
+                res.count("non_function_wrappers")
             elif k == "method":
                 if isinstance(inner, types.FunctionType):
                     class C(object):
